@@ -33,20 +33,18 @@ UNIT = 'zope.testrunner.layer.UnitTests'
 
 def gen(seed):
     rng = random.Random(seed)
-    n = rng.randint(2, 6)
+    n = rng.randint(2, 7)
     names = rng.sample(NAMES, n)
     layers = []
     for i, nm in enumerate(names):
         kind = 'inst' if rng.random() < 0.3 else 'class'
         cands = [L['id'] for L in layers if kind == 'inst' or L['kind'] == 'class']
         r = rng.random()
-        nb = 0 if r < 0.3 else (1 if r < 0.75 else 2)
+        nb = 0 if r < 0.25 else (1 if r < 0.6 else (2 if r < 0.85 else 3))
         nb = min(nb, len(cands))
         bases = rng.sample(cands, nb)
-        if kind == 'class' and len(bases) == 2:
-            a, b = bases
-            if a in closure(layers, b) or b in closure(layers, a):
-                bases = [a]
+        if kind == 'class' and len(bases) >= 2:
+            bases = consistent(layers, bases)
         layers.append({'id': i, 'name': nm, 'module': rng.choice(MODS), 'kind': kind,
                        'bases': bases})
     full = ['%s.%s' % (L['module'], L['name']) for L in layers]
@@ -71,6 +69,27 @@ def gen(seed):
     return {'property': ID, 'seed': seed, 'layers': layers, 'owners': owners, 'unit': unit,
             'perms': perms, 'opt': opt, 'world': {'layers': [], 'modules': []}, 'plan': [],
             'knobs': {}, 'sched': {'prng': seed}}
+
+
+def consistent(layers, bases):
+    """Subset of `bases` (order kept) that type() accepts; redundant bases stay when legal."""
+    idx = {L['id']: L for L in layers}
+    built = {}
+
+    def cls(i):
+        if i not in built:
+            L = idx[i]
+            bs = tuple(cls(b) for b in L['bases'] if idx[b]['kind'] == 'class')
+            built[i] = type('X%d' % i, bs or (object,), {})
+        return built[i]
+    out = []
+    for b in bases:
+        try:
+            type('_probe', tuple(cls(x) for x in out + [b]), {})
+            out.append(b)
+        except TypeError:
+            continue
+    return out
 
 
 def closure(layers, i):
